@@ -58,8 +58,10 @@ def _eq(a, b):
                        (np.abs(a - b) <= 1e-9 * np.maximum(1, np.abs(b)))))
 
 
-def check_series(ctx, VG, x, t, horizontal, missing, cid, relations=True):
-    """x: list of floats (may hold nan), t: list or None."""
+def check_series(ctx, VG, x, t, horizontal, missing, cid, relations=True,
+                 dtype=float):
+    """x: list of floats (may hold nan), t: list or None; dtype: the numeric
+    type the caller holds the (exactly representable) values in."""
     import warnings
     n = len(x)
     kind = "horizontal" if horizontal else "natural"
@@ -68,7 +70,7 @@ def check_series(ctx, VG, x, t, horizontal, missing, cid, relations=True):
         R = ref.horizontal(x, missing)
     else:
         R = ref.natural(x, tt, missing)
-    ok, g = ctx.call(VG, np.array(x, dtype=float),
+    ok, g = ctx.call(VG, np.array(x, dtype=dtype),
                      timings=None if t is None else np.array(t, dtype=float),
                      missing_values=missing, horizontal=horizontal,
                      silence_level=3)
@@ -311,11 +313,23 @@ def run(ctx):
             continue
         r = ctx.rng("rnd", k)
         n = int(r.integers(3, 81 if k % 4 == 0 else 25))
-        style = r.choice(["int", "dyadic", "plateau", "float", "nan"])
+        style = r.choice(["int", "dyadic", "plateau", "float", "nan",
+                          "narrow-int"])
         hz = bool(r.integers(0, 2))
         t = irregular_timings(r, n) if r.random() < 0.6 else None
         miss = False
-        if style == "int":
+        dt = float
+        if style == "narrow-int":
+            # counts / digitised records held in a narrow integer type that
+            # they fill completely
+            dt = [np.int8, np.uint8, np.int16, np.uint16][int(
+                r.integers(0, 4))]
+            ii = np.iinfo(dt)
+            x = r.integers(ii.min, ii.max + 1, n).astype(float)
+            x[int(r.integers(0, n))] = ii.min
+            x[int(r.integers(0, n))] = ii.max
+            ctx.count("narrow_integer_series")
+        elif style == "int":
             x = r.integers(-6, 7, n).astype(float)
         elif style == "dyadic":
             x = r.integers(-64, 65, n) / 8.0
@@ -344,4 +358,4 @@ def run(ctx):
         if ctx.want(cid):
             with ctx.guard(60):
                 check_series(ctx, VG, [float(v) for v in x], t, hz, miss,
-                             cid)
+                             cid, dtype=dt)
